@@ -422,6 +422,16 @@ func (c *nfClient) SplitAssign(e *Engine, st *State, lhs, rhs []ast.Expr, _ ast.
 		}
 		if ek.OK {
 			okSt = okSt.WithExt("nf:"+ek.Key, "none").WithExt("src:"+ek.Key, "")
+			// a nil error is not a not-found error: `if !isNotFound(err) { return }` is taken on success
+			if nf := c.w.p.FuncDecl(c.w.p.Parser, "isNotFound"); nf != nil {
+				if fobj := FuncObj(c.w.p.Parser, nf); fobj != nil {
+					ak := ek
+					ak.Key = "call:" + fobj.FullName() + "(" + ek.Key + ")"
+					if n2 := e.update(okSt, ak, func(f *Fact) { f.HasEq, f.Eq = true, "false" }); n2 != nil {
+						okSt = n2
+					}
+				}
+			}
 		}
 		if fd := c.w.byFunc[callee]; fd != nil && c.w.get(fd).corr {
 			if n2 := e.SetNonNilStrict(okSt, lhs[0]); n2 != nil {
@@ -616,14 +626,15 @@ func (c *splitPairClient) PostAssign(e *Engine, st *State, lhs, rhs []ast.Expr, 
 		}
 		// E = joinErrors(E, <fresh error literal>) / E = <fresh literal>
 		if TypeStr(e.Info.TypeOf(lhs[0])) == "error" {
-			fresh := false
-			if litOf(rhs[0]) != nil {
-				fresh = true
+			// a fresh error: a literal, or a constructor helper that only builds and returns one
+			isFresh := func(x ast.Expr) bool {
+				return litOf(x) != nil || litOf(c.p.Constructed(x)) != nil
 			}
+			fresh := isFresh(rhs[0])
 			if call, ok := ast.Unparen(rhs[0]).(*ast.CallExpr); ok {
 				if f := Callee(e.Info, call); f != nil && fnName(f) == "joinErrors" {
 					for _, a := range call.Args {
-						if litOf(a) != nil {
+						if isFresh(a) {
 							fresh = true
 						}
 					}
